@@ -191,7 +191,7 @@ impl Check for C20 {
     fn cases(&self, tier: Tier) -> u64 {
         match tier {
             Tier::Quick => 15_000,
-            Tier::Thorough => 50_000,
+            Tier::Thorough => 200_000,
         }
     }
     fn langs(&self) -> Vec<&'static str> {
